@@ -407,8 +407,10 @@ def gen_op(rng, st, cfg):
                 "cls": rng.choice(["simple", "inflow", "stockdriven"]), "dim": rng.randint(0, 5)}
     if kind == "system":
         return {"op": "system", "then": rng.choice(["build", "dict_numpy", "dict_pandas", "new_array", "check"])}
+    if kind == "stock_compute" and rng.chance(0.15):
+        return {"op": "stock_poison", "k": rng.randint(0, 3)}
     if kind == "stock_compute":
-        return {"op": "stock_compute", "k": rng.randint(0, 3), "prms": rng.weighted([("keep", 2), ("good", 3), ("bad", 2)])}
+        return {"op": "stock_compute", "k": rng.randint(0, 3), "prms": rng.weighted([("keep", 2), ("good", 3), ("bad", 2), ("singular_last", 2)])}
     if kind == "lifetime":
         def prm():
             how = rng.weighted([("num", 2), ("ref", 3), ("fresh", 3)])
@@ -420,7 +422,7 @@ def gen_op(rng, st, cfg):
         return {"op": "lifetime", "cls": rng.choice(["fixed", "normal", "weibull", "lognormal"]), "dims": gen_dims(rng, st, 0, 3),
                 "prm": [prm(), prm()], "via": rng.choice(["ctor", "set_prms"])}
     if kind == "stock":
-        op = {"op": "stock", "cls": rng.choice(["simple", "inflow", "stockdriven"]), "dims": gen_dims(rng, st, 0, 3),
+        op = {"op": "stock", "cls": rng.choice(["simple", "inflow", "stockdriven"]), "dims": gen_dims(rng, st, 0, 3), "solver": rng.choice(["manual", "lapack"]),
               "vseed": rng.randint(0, 10 ** 6), "lt": rng.weighted([("class", 3), ("instance", 2), ("instance_other", 1 if rng.chance(fp) else 0)])}
         for role in ("stock", "inflow", "outflow"):
             if rng.chance(0.5):
